@@ -90,5 +90,23 @@ def run(ctx, prog):
     d1(ctx, prog)
     n = d2(ctx, prog, 'C03-D2', {'scared.distinguishers.cpa', 'scared.distinguishers.dpa'})
     ctx.floor('_compute functions with divisions (CPA/DPA)', n, 3)
+    # D4: all moments that enter the statistic are accumulated from the traces converted to the working precision
+    from .. import kernelrules, kernels
+    from ..model import self_attr
+    ctx.rule('C03-D4', 'precision discipline: every reduction / product feeding a CPA or DPA accumulator runs on values cast to self.precision, so ex, ex2, exy (and the DPA '
+                       'sums) come from the same converted copy: a moment summed in a narrow float dtype is inconsistent with the others (|r| > 1, NaN)')
+    n4 = 0
+    for f in prog.funcs:
+        if f.mod.name in ('scared.distinguishers.cpa', 'scared.distinguishers.dpa') and f.name == '_update' and f.cls is not None:
+            if not any(self_attr(t) for t, st, how in kernels.stores(f.node)):
+                continue
+            res, _ = kernelrules.precision_taint(prog, f, prec='self.precision')
+            n4 += 1
+            bad = [r for r in res if r[0] != 'ok']
+            for status, construct, detail, where in res:
+                (ctx.ok if status == 'ok' else ctx.fail)('C03-D4', construct, detail, where)
+            if not res:
+                ctx.ok('C03-D4', f'{f.key}::precision', 'no reduction or product runs on unconverted traces', f.where())
+    ctx.floor('CPA/DPA accumulation functions under precision discipline', n4, 2)
     n3 = axes.check_family(ctx, prog, 'C03-D3', ['scared.distinguishers.cpa', 'scared.distinguishers.dpa'])
     ctx.floor('axis obligations (CPA/DPA)', n3, 20)
